@@ -1020,6 +1020,14 @@ fn hash_run_array_inner<
     child_hashing
         .create_hashes(std::slice::from_ref(&sliced_values), &mut values_hashes)?;
 
+    // Logical nulls: a dictionary-encoded value can be NULL through a valid key
+    // that points at a NULL dictionary entry.
+    let value_nulls = if HAS_NULL_VALUES {
+        sliced_values.logical_nulls()
+    } else {
+        None
+    };
+
     let mut start_in_slice = 0;
     for (adjusted_physical_index, &absolute_run_end) in run_ends_values
         [start_physical_index..end_physical_index]
@@ -1029,7 +1037,10 @@ fn hash_run_array_inner<
         let absolute_run_end = absolute_run_end.as_usize();
         let end_in_slice = (absolute_run_end - array_offset).min(array_len);
 
-        if HAS_NULL_VALUES && sliced_values.is_null(adjusted_physical_index) {
+        if value_nulls
+            .as_ref()
+            .is_some_and(|nulls| nulls.is_null(adjusted_physical_index))
+        {
             start_in_slice = end_in_slice;
             continue;
         }
@@ -1058,7 +1069,7 @@ fn hash_run_array<R: RunEndIndexType>(
     hashes_buffer: &mut [u64],
     rehash: bool,
 ) -> Result<()> {
-    let has_null_values = array.values().null_count() != 0;
+    let has_null_values = array.values().logical_null_count() != 0;
 
     match (has_null_values, rehash) {
         (false, false) => hash_run_array_inner::<R, _, false, false>(
